@@ -73,10 +73,11 @@ bool ops_archive(Ctx& c, const json& s, int idx, bool& handled) {
 			if (ftruncate(fd, (off_t)total) != 0) { close(fd); Proto::mismatch(site, "harness-io", where("ftruncate")); return false; } close(fd); in.push_back(p); }
 		const std::string out = ROOT + "/out.bin"; const std::vector<unsigned char> pre{9, 8, 7}; Scen::spit(out, pre);
 		std::cout.flush(); pid_t pid = fork();
-		if (pid == 0) { alarm(wantRefuse ? 20 : 600); struct rlimit rl; rl.rlim_cur = rl.rlim_max = wantRefuse ? (64ull << 20) : RLIM_INFINITY; setrlimit(RLIMIT_FSIZE, &rl); signal(SIGXFSZ, SIG_DFL); signal(SIGALRM, SIG_DFL);
+		if (pid == 0) { { struct itimerval t; memset(&t, 0, sizeof t); t.it_value.tv_sec = wantRefuse ? 20 : 600; setitimer(ITIMER_PROF, &t, nullptr); alarm(3600); signal(SIGPROF, SIG_DFL); }      // CPU time, not wall-clock time
+			struct rlimit rl; rl.rlim_cur = rl.rlim_max = wantRefuse ? (64ull << 20) : RLIM_INFINITY; setrlimit(RLIMIT_FSIZE, &rl); signal(SIGXFSZ, SIG_DFL); signal(SIGALRM, SIG_DFL);
 			try { if (vol) Archive::VolFile::CreateArchive(out, in); else Archive::ClmFile::CreateArchive(out, in); } catch (const std::exception&) { flush_profile(); _exit(10); } flush_profile(); _exit(11); }
 		int st = 0; waitpid(pid, &st, 0); bool refused = WIFEXITED(st) && WEXITSTATUS(st) == 10, accepted = WIFEXITED(st) && WEXITSTATUS(st) == 11;
-		bool cut = WIFSIGNALED(st) && (WTERMSIG(st) == SIGXFSZ || WTERMSIG(st) == SIGALRM);
+		bool cut = WIFSIGNALED(st) && (WTERMSIG(st) == SIGXFSZ || WTERMSIG(st) == SIGALRM || WTERMSIG(st) == SIGPROF);
 		auto cleanup = [&] { for (auto& p : in) fs::remove(p); fs::remove(out); };
 		if (wantRefuse) { if (!refused) { Proto::mismatch(site, cut || accepted ? "accepted-should-refuse" : "crash", where("sizes " + s["sizes"].dump() + (cut ? " (writing was cut short by the file-size limit)" : ""))); cleanup(); return false; }
 			if (vol && Scen::slurp(out) != pre) { Proto::mismatch(site, "destination-altered"   /* the property promises an untouched destination for volume archives only */, where("sizes " + s["sizes"].dump())); cleanup(); return false; } }
